@@ -1606,6 +1606,177 @@ def probe_marker_arguments(ctx):
     return n
 
 
+def probe_collection_arguments(ctx):
+    """Collections of keys / members / characters handed to make_required, schema.dict(...).keys-style
+    operations and declarations - as a set, frozenset, list, tuple or dict view: "mutates no value passed in"
+    holds for them as for dict and list values, whether the call succeeds or raises."""
+    from d42.utils import make_required
+    r = ctx.rng
+    n = 0
+    pool = ["id", "name", "a", "b", ("t", 1), 3, "zz", b"k"]
+    for _ in range(ctx.scale(150, 1500)):
+        declared = r.sample(pool, r.randint(0, 5))
+        entries = {}
+        for k in declared:
+            entries[k if r.random() < 0.6 else gen.build("optional")(k)] = gen.gen_schema(r, 1)[1]
+        if r.random() < 0.3:
+            entries[...] = ...
+        try:
+            d = gen.build("schema.dict")(entries) if (entries or r.random() < 0.7) else gen.build("schema.dict")
+        except Exception:  # noqa
+            continue
+        asked = r.sample(pool, r.randint(0, 4)) if r.random() < 0.4 else r.sample(declared, r.randint(0, len(declared)))
+        for mk in (set, list, tuple, frozenset, lambda ks: dict.fromkeys(ks, 0), lambda ks: {k: None for k in ks}.keys()):
+            arg = mk(asked)
+            before = (type(arg).__name__, sorted(map(repr, arg)), len(arg))
+            sbefore = (dump(d), repr(d))
+            try:
+                make_required(d, arg)
+                out = "returned"
+            except Exception as e:  # noqa
+                out = "raised " + type(e).__name__
+            n += 1
+            after = (type(arg).__name__, sorted(map(repr, arg)), len(arg))
+            if after != before:
+                ctx.violation("make_required changed the collection of keys passed in",
+                              {"kind": "input", "schema": repr(d)[:300], "keys_before": str(before)[:300],
+                               "keys_after": str(after)[:300], "outcome": out, "expected": "the caller's collection unchanged"})
+                return n
+            if (dump(d), repr(d)) != sbefore:
+                ctx.violation("make_required changed the schema passed in",
+                              {"kind": "input", "schema_before": sbefore[1][:300], "schema_after": repr(d)[:300], "outcome": out})
+                return n
+    # members handed to declarations as other collections
+    decls = [("schema.any(*members)", lambda m: gen.build("schema.any")(*m)),
+             ("schema.list(members)", lambda m: gen.build("schema.list")(m)),
+             ("schema.str.alphabet(chars)", None)]
+    for _ in range(ctx.scale(60, 600)):
+        members = [gen.gen_schema(r, 1)[1] for _ in range(r.randint(0, 4))]
+        before = [id(x) for x in members]
+        for name, f in decls[:2]:
+            try:
+                f(members)
+            except Exception:  # noqa
+                pass
+            n += 1
+            if [id(x) for x in members] != before:
+                ctx.violation(f"{name} changed the list of members passed in",
+                              {"kind": "input", "members": str([repr(m) for m in members])[:300]})
+                return n
+    return n
+
+
+def _interpreter_settings():
+    import decimal
+    import gc
+    import locale
+    import logging
+    import os
+    import signal
+    import threading
+    import warnings
+    out = {
+        "int_max_str_digits": sys.get_int_max_str_digits() if hasattr(sys, "get_int_max_str_digits") else None,
+        "recursion_limit": sys.getrecursionlimit(),
+        "switch_interval": sys.getswitchinterval(),
+        "decimal_context": repr(decimal.getcontext()),
+        "cwd": os.getcwd(),
+        "environ": sorted(os.environ.items()),
+        "umask": None,
+        "locale": locale.setlocale(locale.LC_ALL),
+        "warnings_filters": [repr(f) for f in warnings.filters],
+        "sys_path": list(sys.path),
+        "trace": repr(sys.gettrace()), "profile": repr(sys.getprofile()),
+        "excepthook": sys.excepthook is sys.__excepthook__, "displayhook": sys.displayhook is sys.__displayhook__,
+        "stdio": (id(sys.stdout), id(sys.stderr), id(sys.stdin)),
+        "gc": (gc.isenabled(), gc.get_threshold()),
+        "logging": (logging.root.level, len(logging.root.handlers), logging.root.manager.disable),
+        "threads": sorted(t.name for t in threading.enumerate()),
+        "sigint": repr(signal.getsignal(signal.SIGINT)),
+        "float_repr_style": sys.float_repr_style,
+        "dont_write_bytecode": sys.dont_write_bytecode,
+        "default_encoding": sys.getdefaultencoding(),
+        "builtins": (repr is __builtins__["repr"] if isinstance(__builtins__, dict) else repr is __builtins__.repr),
+    }
+    return out
+
+
+def probe_interpreter_settings(ctx):
+    """"Repeating an operation on equal inputs gives equal results regardless of what was executed in between":
+    what an operation returns or raises also depends on interpreter-wide settings (the int -> str digit limit,
+    the recursion limit, the decimal context, the locale, warnings filters, the working directory, the
+    environment ...), so no d42 operation may leave one of them changed - successful or failing, on small or on
+    extreme arguments.  Observed around a battery of operations on unrelated schemas."""
+    from d42 import fake, represent, substitute, validate_or_fail
+    from d42.utils import from_native, make_required
+    from d42.validation import format_result
+    sc = gen.build
+    huge, deep = 7 ** 6000, []
+    for _ in range(3000):
+        deep = [deep]
+    deepd = {}
+    for _ in range(1500):
+        deepd = {"k": deepd}
+    ops = [
+        ("validate_or_fail(schema.int.max(10), 7**6000)", lambda: validate_or_fail(sc("schema.int.max(10)"), huge)),
+        ("format_result(validate(schema.list(schema.int.min(0)), [1, -7**6000]))",
+         lambda: format_result(validate(sc("schema.list(schema.int.min(0))"), [1, -huge]))),
+        ("format_result(validate(schema.dict({'a': schema.str}), {'a': 7**6000}))",
+         lambda: format_result(validate(sc("schema.dict({'a': schema.str})"), {"a": huge}))),
+        ("substitute(schema.dict({'a': schema.int(1)}), {'a': 7**6000})",
+         lambda: substitute(sc("schema.dict({'a': schema.int(1)})"), {"a": huge})),
+        ("schema.int(7**6000)", lambda: sc("schema.int")(huge)),
+        ("repr(schema.int(7**6000))", lambda: repr(sc("schema.int")(huge))),
+        ("represent(schema.int.min(7**6000))", lambda: represent(sc("schema.int").min(huge))),
+        ("schema.int(7**6000)(1)", lambda: sc("schema.int")(huge)(1)),
+        ("schema.int(7**6000).min(7**12000)", lambda: sc("schema.int")(huge).min(huge * huge)),
+        ("schema.int.min(3).max(1)", lambda: sc("schema.int").min(3).max(1)),
+        ("schema.float(float(7**6000))", lambda: sc("schema.float")(float(huge))),
+        ("schema.float.min(7**6000)", lambda: sc("schema.float").min(huge)),
+        ("validate(schema.float, 7**6000)", lambda: validate(sc("schema.float"), huge).has_errors()),
+        ("validate(schema.list, <3000 nested lists>)", lambda: format_result(validate(sc("schema.list(schema.int)"), deep))),
+        ("validate_or_fail(schema.int, <3000 nested lists>)", lambda: validate_or_fail(sc("schema.int"), deep)),
+        ("from_native(<3000 nested lists>)", lambda: from_native(deep)),
+        ("from_native(<1500 nested dicts>)", lambda: repr(from_native(deepd))),
+        ("schema.any % <1500 nested dicts>", lambda: sc("schema.any") % deepd),
+        ("schema.str.regex('(' * 3000 + ')' * 3000)", lambda: sc("schema.str").regex("(" * 3000 + ")" * 3000)),
+        ("schema.str.regex('[')", lambda: sc("schema.str").regex("[")),
+        ("fake(schema.str.regex('(a|b){3}\\d+'))", lambda: fake(sc("schema.str").regex(r"(a|b){3}\d+"))),
+        ("fake(schema.float.min(0.1).max(0.2).precision(3))", lambda: fake(sc("schema.float").min(0.1).max(0.2).precision(3))),
+        ("fake(schema.dict({'a': schema.list(schema.int).len(3), optional('b'): schema.uuid4}))",
+         lambda: fake(sc("schema.dict")({"a": sc("schema.list(schema.int)").len(3), sc("optional")("b"): sc("schema.uuid4")}))),
+        ("fake(schema.datetime), fake(schema.date)", lambda: (fake(sc("schema.datetime")), fake(sc("schema.date")))),
+        ("fake(schema.int.min(7**6000))", lambda: fake(sc("schema.int").min(huge))),
+        ("validate(schema.datetime, '2020-13-01')", lambda: format_result(validate(sc("schema.datetime"), "2020-13-01"))),
+        ("validate(schema.numeric, '1e5')", lambda: format_result(validate(sc("schema.numeric"), "1e5"))),
+        ("make_required(schema.dict({optional('a'): schema.int}), {'a', 'zz'})",
+         lambda: make_required(sc("schema.dict")({sc("optional")("a"): sc("schema.int")}), {"a", "zz"})),
+        ("schema.dict({'a': schema.int}) + schema.int", lambda: sc("schema.dict")({"a": sc("schema.int")}) + sc("schema.int")),
+        ("schema.dict({'a': schema.int})['zz']", lambda: sc("schema.dict")({"a": sc("schema.int")})["zz"]),
+        ("schema.bytes % 'text'", lambda: sc("schema.bytes") % "text"),
+    ]
+    n = 0
+    base = _interpreter_settings()
+    for rounds in range(2):
+        for src, f in ops:
+            try:
+                f()
+                out = "returned"
+            except BaseException as e:  # noqa
+                out = "raised " + type(e).__name__
+            n += 1
+            now = _interpreter_settings()
+            if now != base:
+                diff = {k: (base[k], now[k]) for k in base if base[k] != now[k]}
+                ctx.violation("an operation left an interpreter-wide setting changed (what later operations return or "
+                              "raise depends on it)",
+                              {"kind": "history", "operation": src, "outcome": out,
+                               "changed": {k: [common.srepr(a)[:200], common.srepr(b)[:200]] for k, (a, b) in diff.items()},
+                               "expected": "settings as before the operation"})
+                return n
+    return n
+
+
 def probe_augmented_assignment(ctx):
     """`x = s; x += t` (likewise |= and %=) binds x to a NEW schema: the object s still refers to is unchanged,
     whatever in-place protocol methods exist."""
@@ -1781,6 +1952,8 @@ def run(ctx):
     ctx.coverage["distribution"]["augmented_assignment_probes"] = probe_augmented_assignment(ctx)
     ctx.coverage["distribution"]["marker_argument_probes"] = probe_marker_arguments(ctx)
     ctx.coverage["distribution"]["generation_independence_probes"] = indep
+    ctx.coverage["distribution"]["collection_argument_probes"] = probe_collection_arguments(ctx)
+    ctx.coverage["distribution"]["interpreter_setting_probes"] = probe_interpreter_settings(ctx)
 
 
 def _run(ctx, pristine, n_hist, n_ops, depth, n_slices, shrink_budget, model_hist):
